@@ -1244,3 +1244,26 @@ def _load_seeded():
 
 
 _load_seeded()
+
+
+# ========================================== R47 / R48 / R32 (later additions)
+B("c01-ordinal-carry-guard-ge", ["C01", "C06", "C20"], ["R47"],
+  ("data", "            while self._day_of_year > get_days_in_year(self._year):",
+   "            while self._day_of_year >= get_days_in_year(self._year):"))
+B("c05-month-wrap-guard-ge", ["C05"], ["R47"],
+  ("data", "                if new._month_of_year > CALENDAR.MONTHS_IN_YEAR:\n                    new._month_of_year -= CALENDAR.MONTHS_IN_YEAR",
+   "                if new._month_of_year >= CALENDAR.MONTHS_IN_YEAR:\n                    new._month_of_year -= CALENDAR.MONTHS_IN_YEAR"))
+B("c01-weekday-modulo-no-shift", ["C01", "C06", "C20"], ["R47"],
+  ("data", "            num_weeks, days = divmod(\n                self._day_of_week - 1, CALENDAR.DAYS_IN_WEEK)\n            self._week_of_year += num_weeks\n            self._day_of_week = days + 1",
+   "            num_weeks, days = divmod(\n                self._day_of_week, CALENDAR.DAYS_IN_WEEK)\n            self._week_of_year += num_weeks\n            self._day_of_week = days"))
+B("c07-century-factor", ["C07"], ["R48"],
+  ("parsers", "            year += 100 * int(date_info.pop(\"century\", 0))",
+   "            year += 1000 * int(date_info.pop(\"century\", 0))"))
+B("c08-century-property-radix", ["C08", "C17"], ["R48"],
+  ("data", "    def century(self): return (abs(self._year) % 10000) // 100",
+   "    def century(self): return abs(self._year) // 100"))
+B("c04-diff-orientation", ["C04"], ["R32"],
+  ("data", "            diff_minute = my_minute - other_minute", "            diff_minute = other_minute - my_minute"))
+K("c08k-century-respelled",
+  ("data", "    def century(self): return (abs(self._year) % 10000) // 100",
+   "    def century(self): return abs(self._year) % 10000 // 100"))
